@@ -36,7 +36,7 @@ TraceInit == Init /\ nw = W /\ l = 1 /\ pos = [s \in Splits |-> [o \in Workers |
 
 Evt == TraceLog[l]
 IsEvent(e) == l <= Len(TraceLog) /\ Evt.op = e /\ l' = l + 1
-Frozen == UNCHANGED <<cursor, out, slot, inside, pend, bar, opack, startq, srack, ckptId, pending, pubs, completed, nck, nkills, hist>>
+Frozen == UNCHANGED <<late, epoch, cursor, out, slot, inside, pend, bar, opack, startq, srack, ckptId, pending, pubs, completed, nck, nkills, hist>>
 
 Min(S) == CHOOSE x \in S : \A y \in S : x <= y
 NextFor(s, o, p) == LET c == {j \in (p + 1)..NRecs : OwnerAt[nw][KeyOf[s][j]] = o} IN IF c = {} THEN 0 ELSE Min(c)
